@@ -64,6 +64,17 @@ def parse_events(xml_bytes):
     return out
 
 
+def no_nulls(x, key=None):
+    """JSON for TLC: attributes a file does not state become 0 / the empty string"""
+    if x is None:
+        return "" if key in ("id", "step", "gtype", "type", "number") else 0
+    if isinstance(x, dict):
+        return {k: no_nulls(v, k) for k, v in x.items()}
+    if isinstance(x, (list, tuple)):
+        return [no_nulls(v, key) for v in x]
+    return x
+
+
 def decorate(score, rng, part, level):
     """features the property lists, added through the public API in the importer's normal form"""
     from partitura.directions import parse_direction
@@ -85,6 +96,31 @@ def decorate(score, rng, part, level):
             part.add(f, n.start.t)
             n.fermata = f
             used.add("fermata")
+    # phrasing slurs meeting on a note, nested and overlapping slurs
+    line = sorted([n for n in notes if n.voice == 1], key=lambda n: (n.start.t, n.midi_pitch if hasattr(n, "midi_pitch") else 0))
+    line = [n for k, n in enumerate(line) if k == 0 or n.start.t > line[k - 1].start.t]
+    if len(line) >= 4 and rng.random() < 0.35:
+        kind = rng.choice(["chain", "nested", "overlap"])
+        i = rng.randint(0, len(line) - 4)
+        a, b, c, d = line[i:i + 4]
+        pairs = {"chain": [(a, b), (b, d)], "nested": [(a, d), (b, c)], "overlap": [(a, c), (b, d)]}[kind]
+        if not any(x.slur_starts or x.slur_stops for x in (a, b, c, d)):
+            for x, y in pairs:
+                part.add(score.Slur(x, y), x.start.t, y.end.t)
+            used.add("slurs_" + kind)
+    # tuplet brackets over three equal triplet notes of one voice
+    by_voice = {}
+    for n in sorted(notes, key=lambda n: n.start.t):
+        by_voice.setdefault(n.voice, []).append(n)
+    for v, ns in by_voice.items():
+        chordless = [n for n in ns if sum(1 for m in ns if m.start.t == n.start.t) == 1]
+        for a, b, c in zip(chordless, chordless[1:], chordless[2:]):
+            sd = a.symbolic_duration or {}
+            if (a.end.t == b.start.t and b.end.t == c.start.t and a.duration == b.duration == c.duration and sd.get("actual_notes") == 3
+                    and not a.tuplet_starts and not b.tuplet_starts and not a.tuplet_stops and rng.random() < 0.5):
+                part.add(score.Tuplet(a, c, 3, 2, sd["type"], sd["type"]), a.start.t, c.end.t)
+                used.add("tuplet")
+                break
     onsets = sorted(set(n.start.t for n in notes))
     if level >= 1 and onsets:
         if rng.random() < 0.5:
@@ -107,6 +143,20 @@ def decorate(score, rng, part, level):
             for d in parse_direction(rng.choice(["cresc.", "rit.", "dim."])):
                 part.add(d, a, b)
             used.add("dashes")
+        if rng.random() < 0.3 and len(onsets) >= 2:
+            a, b = sorted(rng.sample(onsets, 2))
+            part.add(score.SustainPedalDirection(line=rng.random() < 0.5), a, b)
+            used.add("pedal")
+        if rng.random() < 0.25:
+            plain = [n for n in notes if n.tie_next is None and n.tie_prev is None and not n.slur_starts and not n.slur_stops
+                     and getattr(n, "grace_prev", None) is None and not n.tuplet_starts and not n.tuplet_stops and n.fermata is None]
+            for n in rng.sample(plain, min(len(plain), rng.randint(1, 3))):
+                u = score.UnpitchedNote(step=n.step, octave=n.octave, id=n.id, voice=n.voice, staff=n.staff, notehead=rng.choice([None, "x", "diamond"]))
+                u.articulations, u.technical, u.stem_direction = n.articulations, n.technical, n.stem_direction
+                s0, e0 = n.start.t, n.end.t
+                part.remove(n)
+                part.add(u, s0, e0)
+            used.add("unpitched")
     if level >= 2 and len(ms) >= 2:
         if rng.random() < 0.4:
             i = rng.randrange(len(ms))
@@ -140,10 +190,57 @@ def ties_expressible(score, part):
         if b is None:
             continue
         for x in notes:
-            if x is a or x is b or (x.step, x.alter or 0, x.octave) != (a.step, a.alter or 0, a.octave):
+            if x is a or x is b or x.midi_pitch != a.midi_pitch:      # (sounding pitch: enharmonic spellings count as one pitch)
                 continue
             if x.start.t <= b.start.t and x.end.t >= a.start.t:
                 return False
+    return True
+
+
+def with_division_change(score, rng, part):
+    """the same music with the divisions changed by an integer factor from a point on (measure start or
+    any point no note sounds through); returns the new part or None"""
+    from .. import proj
+    objs, _ = proj.part_objects(part)
+    notes = [o for o in objs if isinstance(o, score.GenericNote)]
+    last = part.last_point.t
+    cands = [tp.t for tp in part._points if 0 < tp.t < last and all(n.end.t <= tp.t or n.start.t >= tp.t for n in notes)]
+    if not cands:
+        return None
+    tk, f = rng.choice(cands), rng.choice([2, 3])
+    d = int(part.quarter_duration_map(0))
+    m = lambda t: t if t <= tk else tk + (t - tk) * f
+    spans = [(o, o.start.t if o.start is not None else None, o.end.t if o.end is not None else None) for o in objs]
+    for o, _, _ in spans:
+        part.remove(o)
+    new = score.Part(part.id, part_name=part.part_name, quarter_duration=d)
+    new.set_quarter_duration(tk, d * f)
+    for o, s0, e0 in spans:
+        new.add(o, None if s0 is None else m(s0), None if e0 is None else m(e0))
+    return new
+
+
+def add_triplet_measure(score, rng, part):
+    """one more measure: a bracketed eighth-note triplet, the rest of the bar a rest (divisions divisible by 3)"""
+    d = int(part.quarter_duration_map(part.last_point.t))
+    if d % 3:
+        return False
+    t0 = part.last_point.t
+    beats, beat_type = [int(x) for x in part.time_signature_map(t0)[:2]]
+    bl = gen_score.bar_len(d, beats, beat_type)
+    if not bl or bl < d:
+        return False
+    n_m = len(list(part.iter_all(score.Measure)))
+    part.add(score.Measure(number=n_m + 1, name=str(n_m + 1)), t0, t0 + bl)
+    ns = []
+    for k in range(3):
+        n = score.Note(step=rng.choice(gen_score.STEPS), octave=4, id="%s_t%d" % (part.id, k), voice=1, staff=1,
+                       symbolic_duration={"type": "eighth", "actual_notes": 3, "normal_notes": 2})
+        part.add(n, t0 + k * d // 3, t0 + (k + 1) * d // 3)
+        ns.append(n)
+    part.add(score.Tuplet(ns[0], ns[2], 3, 2, "eighth", "eighth"), ns[0].start.t, ns[2].end.t)
+    if bl > d:
+        part.add(score.Rest(id="%s_tr" % part.id, voice=1, staff=1), t0 + d, t0 + bl)
     return True
 
 
@@ -153,13 +250,43 @@ def make_case(score, rng, tier):
     parts = []
     feats = set()
     for i in range(n_parts):
+        poly = rng.random() < 0.12
         while True:
             p = gen_score.make_part(score, rng, pid="P%d" % (i + 1), divs=rng.choice([1, 2, 4, 6, 12]), n_measures=rng.randint(1, 3),
                                     voices=rng.choice([1, 2, 3]), staves=rng.choice([1, 2]), pickup=rng.random() < 0.3,
-                                    ts_change=rng.random() < 0.3, directions=False, max_notes=10 ** 6, slurs=rng.random() < 0.6)
+                                    ts_change=rng.random() < 0.3, directions=False, max_notes=10 ** 6, slurs=rng.random() < 0.6,
+                                    polyphony=poly)
             if ties_expressible(score, p):
                 break
+        if poly:
+            # a voice that holds a note under a moving line is not expressible: the exporter gives such notes a free voice
+            feats.add("polyphony_inside_a_voice")
+            if rng.random() < 0.6:
+                # several staggered held notes in voice 1 of one measure
+                m = rng.choice(list(p.iter_all(score.Measure)))
+                ons = sorted(set(n.start.t for n in p.notes if n.voice == 1 and m.start.t <= n.start.t < m.end.t))
+                for k, t in enumerate(ons[:rng.randint(2, 4)]):
+                    later = [u for u in ons if u > t] + [m.end.t]
+                    end = rng.choice(later[1:] or later)
+                    p.add(score.Note(step="ABCDEFG"[k], octave=1, id="%s_h%d" % (p.id, k), voice=1, staff=1), t, end)
+                feats.add("staggered_held_notes")
+            m = rng.choice(list(p.iter_all(score.Measure)))
+            if m.end.t - m.start.t >= 4 and rng.random() < 0.7:
+                # a voice of its own made of notes entering one after the other while the earlier ones still sound
+                v = 1 + max(n.voice or 1 for n in p.notes)
+                pts = sorted(rng.sample(range(m.start.t, m.end.t), 4))
+                spans = [(pts[0], m.end.t), (pts[1], rng.choice([pts[3], m.end.t])), (pts[2], pts[3]), (pts[3], m.end.t)]
+                for k, (a, b) in enumerate(spans):
+                    p.add(score.Note(step="CDEFGAB"[k], octave=7, id="%s_s%d" % (p.id, k), voice=v, staff=1), a, b)
+                feats.add("staggered_voice")
+        if rng.random() < 0.25 and add_triplet_measure(score, rng, p):
+            feats.add("tuplet")
         feats |= decorate(score, rng, p, level)
+        if rng.random() < 0.2:
+            q = with_division_change(score, rng, p)
+            if q is not None:
+                p = q
+                feats.add("division_change")
         parts.append(p)
     pages = rng.random() < 0.5
     if pages:
@@ -215,7 +342,13 @@ def main(chk):
     from partitura.io.exportmusicxml import save_musicxml
     from partitura.io.importmusicxml import load_musicxml
     rng = random.Random(chk.seed)
-    ncase = 60 if chk.tier == "quick" else 1200
+    # ---------------- the stream machine itself, model checked
+    r = tlc.run("MusicXMLStreamMC", "MusicXMLStreamMC.%s.cfg" % chk.tier, "c03/mc", workers=16, timeout=3000, expect_violation=True, heap="6g")
+    chk.add_mc("MusicXMLStreamMC (every document of the bounded alphabet)", r)
+    if r.violated:
+        chk.machinery("MusicXMLStream violates its own invariant %s\n%s" % (r.violated, r.error_trace[:1500]))
+        return
+    ncase = 150 if chk.tier == "quick" else 2500
     batch, ctx = [], {}
     feats_all = {}
     tid = 0
@@ -230,6 +363,7 @@ def main(chk):
             chk.violation("c2s", clause, dict(cid=cid, features=sorted(feats), **detail), replay={"cid": cid, "seed": chk.seed, "tier": chk.tier, "xml": ctx.get(("b0", cid), b"").decode("utf8", "replace")[:20000]},
                           op=clause.split(".")[0], **attrs)
         fp0 = xmlfp.fp_score(sc, score)
+        revoiced = "polyphony_inside_a_voice" in feats
         try:
             b0 = save_musicxml(sc)
         except Exception as ex:
@@ -241,7 +375,11 @@ def main(chk):
             evs = parse_events(b0)
             for p in sc.parts:
                 tid += 1
-                batch.append({"cid": tid, "events": evs.get(p.id, []), "part": extract(score, p)})
+                e = extract(score, p)
+                if revoiced:
+                    for n in e["notes"]:
+                        n["voice"] = 0      # voices are re-assigned: not compared
+                batch.append({"cid": tid, "events": evs.get(p.id, []), "part": e})
                 ctx[tid] = (cid, p.id, sorted(feats))
         except Exception as ex:
             report("written_file.not_parseable", {"exc": repr(ex)}, exc=type(ex).__name__)
@@ -264,6 +402,8 @@ def main(chk):
             if sorted(q1["barline_fermatas"], key=repr) != pred:
                 dup = False
         d = xmlfp.diff(fp0, fp1, limit=60)
+        if revoiced:
+            d = [x for x in d if not x[0].endswith("/voice")]
         by_kind = {}
         for pth, a, b in d:
             by_kind.setdefault(re.sub(r"/\d+", "", re.sub(r"/notes/[^/]+", "/notes", pth)), []).append((pth, str(a)[:160], str(b)[:160]))
@@ -285,6 +425,53 @@ def main(chk):
             k = next((i for i, (x, y) in enumerate(zip(la, lb)) if x != y), min(len(la), len(lb)))
             report("fixpoint.first_generation", {"line": k, "written": la[k:k + 2], "rewritten": lb[k:k + 2]},
                    only_initial_print_added=only_print, score_has_page_and_system=pages, fermata_on_inner_barline=inner)
+    # ---------------- fixture files: load, save, load again, save again
+    import glob
+    files = sorted(glob.glob(os.path.join(common.REPO, "tests", "data", "musicxml", "*.xml")) + glob.glob(os.path.join(common.REPO, "tests", "data", "musicxml", "*.musicxml")))
+    if chk.tier == "quick":
+        files = files[chk.seed % 3::3]
+    nfix = 0
+    for fn in files:
+        name = os.path.basename(fn)
+        chk.count(1, validated=1)
+        nfix += 1
+
+        def frep(clause, detail, **attrs):
+            chk.violation("c2s", "fixture." + clause, dict(file=name, **detail), op="fixture", file=name, **attrs)
+        try:
+            x1 = load_musicxml(fn)
+            fp1 = xmlfp.fp_score(x1, score)
+            b1 = save_musicxml(x1)
+            x2 = load_musicxml(io.BytesIO(b1))
+            fp2 = xmlfp.fp_score(x2, score)
+            b2 = save_musicxml(x2)
+        except Exception as ex:
+            frep("raises", {"exc": repr(ex)}, exc=type(ex).__name__)
+            continue
+        inner = any(ref in (None, "right") and t in set(m[0] for m in q["measures"]) for q in fp1["parts"] for t, ref in q["barline_fermatas"])
+        dup_ids = any("DUPLICATE_ID" in r for q in fp1["parts"] for r in q["notes"].values())
+        d = xmlfp.diff(fp1, fp2, limit=40)
+        by_kind = {}
+        for pth, a, b in d:
+            by_kind.setdefault(re.sub(r"/\d+", "", re.sub(r"/notes/[^/]+", "/notes", pth)), []).append((pth, str(a)[:160], str(b)[:160]))
+        for kind, items in sorted(by_kind.items()):
+            frep("same_score." + kind.strip("/").replace("/", "."), {"differences": items[:4]}, fermata_on_inner_barline=inner, duplicate_note_ids=dup_ids)
+        if b1 != b2:
+            la, lb = b1.decode().split("\n"), b2.decode().split("\n")
+            k = next((i for i, (x, y) in enumerate(zip(la, lb)) if x != y), min(len(la), len(lb)))
+            frep("fixpoint", {"line": k, "written": la[k:k + 2], "rewritten": lb[k:k + 2]}, fermata_on_inner_barline=inner, duplicate_note_ids=dup_ids)
+        try:
+            evs = parse_events(b1)
+            for p in x1.parts:
+                if any(n.id is None for n in p.notes_tied) or dup_ids:
+                    continue
+                tid += 1
+                batch.append({"cid": tid, "events": evs.get(p.id, []), "part": extract(score, p)})
+                ctx[tid] = (name, p.id, ["fixture"])
+                ctx[("b0", name)] = b1
+        except Exception as ex:
+            frep("written_file.not_parseable", {"exc": repr(ex)}, exc=type(ex).__name__)
+    chk.part("fixtures", files=nfix)
     # ---------------- TLC: every written part as a trace
     nshards = 8
     jobs = []
@@ -293,7 +480,7 @@ def main(chk):
             continue
         path = os.path.join(tlc.workdir("c03/trace%d" % k), "batch.json")
         with open(path, "w") as f:
-            json.dump(batch[k::nshards], f)
+            json.dump(no_nulls(batch[k::nshards]), f)
         jobs.append(("c03/trace%d" % k, path))
 
     def run(a):
